@@ -9,7 +9,7 @@ package elastic
 // one request: bound to a context with the configured data timeout (cancel always released), GET of exactly the
 // given URL, body closed; success only if the body decoded to a JSON object (a nil map is refused)
 //@ func (*elasticClient).Get
-//@   props C10 C08
+//@   props C10 C08 C01 C02 C14
 //@   observe context.WithTimeout, http.NewRequestWithContext, Do, Close, json.NewDecoder, Decode, cancel
 //@   entry row reqfail: [call context.WithTimeout(ctx, c.dataTimeout) as (c2, cf) ; call http.NewRequestWithContext(c2, "GET", url, _) as (rq, e) ; call cancel()]
 //@                         when e != nil && ret1 == e -> exit
@@ -27,18 +27,18 @@ package elastic
 
 // URLs: proto://host/ and proto://host/_aliases
 //@ func (*elasticClient).GetInfo
-//@   props C10 C08
+//@   props C10 C08 C01 C02 C14
 //@   observe fmt.Sprintf, Get
 //@   entry row info: [call fmt.Sprintf("%s://%s/", bind_a) as (u) ; call Get(c, ctx, u) as (d, e)] when len(a) == 2 && astype(a[0], string) == c.proto && astype(a[1], string) == host && ret0 == d && ret1 == e -> exit
 //@ func (*elasticClient).GetIndexes
-//@   props C10 C08
+//@   props C10 C08 C01 C02 C14
 //@   observe fmt.Sprintf, Get
 //@   entry row aliases: [call fmt.Sprintf("%s://%s/_aliases", bind_a) as (u) ; call Get(c, ctx, u) as (d, e)] when len(a) == 2 && astype(a[0], string) == c.proto && astype(a[1], string) == host && ret0 == d && ret1 == e -> exit
 
 // the probe: a record iff the primary request succeeded; the index request is best effort and can neither
 // suppress nor falsify the record; host = target address:port; proto = the scanner's
 //@ func (*Scanner).Scan
-//@   props C10 C08
+//@   props C10 C08 C01 C02 C14
 //@   observe String, fmt.Sprintf, GetInfo, GetIndexes
 //@   entry row noinfo: [call String(r.DstIP) as (ips) ; call fmt.Sprintf("%s:%d", bind_a) as (host) ; call GetInfo(s.elastic, ctx, host) as (info, e)]
 //@                        when len(a) == 2 && astype(a[0], string) == ips && astype(a[1], uint16) == r.DstPort && e != nil && ret0 == nil && ret1 == e -> exit
@@ -51,11 +51,11 @@ package elastic
 // (so no connection ever goes to a host outside the target set), one connection per host, no keep-alives; the
 // per-request timeout is the configured data timeout (default first, then the options in order, nothing afterwards)
 //@ func WithDataTimeout$1
-//@   props C10 C08
+//@   props C10 C08 C01 C02 C14
 //@   modifies s.elastic.dataTimeout
 //@   ensures s.elastic.dataTimeout == timeout
 //@ func NewScanner
-//@   props C02 C10 C08
+//@   props C02 C10 C08 C01 C14
 //@   observe o
 //@   entry row init:  [] when s.proto == proto && s.elastic.proto == proto && s.elastic.client.Timeout == 0 && isptr(s.elastic.client.Transport, http.Transport) && fresh(asptr(s.elastic.client.Transport, http.Transport))
 //@                       && asptr(s.elastic.client.Transport, http.Transport).Proxy == nil && asptr(s.elastic.client.Transport, http.Transport).DialContext == nil
@@ -77,5 +77,5 @@ package elastic
 // option constructors: each returns its own option closure over exactly its argument (verified here, inlined at call sites)
 //@ func WithDataTimeout
 //@   inline
-//@   props C10 C08
+//@   props C10 C08 C01 C02 C14
 //@   ensures closureof(ret, "WithDataTimeout$1") && capt(ret, "timeout") == timeout
